@@ -442,6 +442,7 @@ func c17Scenarios(th bool) []vx.Scenario {
 		cpb = 3
 	}
 	out = append(out, c17ConcFetch("request", cpb), c17ConcFetch("pending", cpb))
+	out = append(out, c17FaultScenarios(th)...)
 	for _, n := range []int{20, 180, 215, 260, 600} {
 		out = append(out, c17LongURL(n))
 	}
